@@ -306,7 +306,13 @@ static elt_t* alloc_elts(uint64_t n) {
 #ifdef __CPROVER__
   __CPROVER_assume(p != 0);
 #endif
+#ifdef CONCRETE_PROBE
+  /* large N: the maps are data-independent signed permutations, so one injective probe vector per (N, p) determines the behaviour on all inputs
+   * (property text); with concrete data and concrete p the symbolic engine executes the kernel as an interpreter */
+  for (uint64_t i = 0; i < n; ++i) p[i] = (elt_t)(int64_t)(i + 1);
+#else
   for (uint64_t i = 0; i < n; ++i) p[i] = vf_elt();
+#endif
   return p;
 }
 
